@@ -48,7 +48,8 @@ def fillFromList (n : Nat) : List Cand → List Cand → List Cand
     else if elected.contains c then fillFromList n elected cs
     else fillFromList n (elected ++ [c]) cs
 
-/-- `ThresholdOpenList.evaluate` (openlist.py L102-153), for `n_seats ≥ 1` -/
+/-- `ThresholdOpenList.evaluate` (openlist.py L102-153), given that the quota function answers (see `thresholdOpenListAt`
+    for `n_seats = 0`) -/
 def thresholdOpenList (cfg : OpenListCfg) (votes : Votes) (n : Nat) (clist : List Cand) :
     Except Err (List Cand) :=
   match jumpThreshold cfg (sumVals votes) n with
@@ -64,6 +65,14 @@ def thresholdOpenList (cfg : OpenListCfg) (votes : Votes) (n : Nat) (clist : Lis
         else .error .valueError
       else .ok (jumping.take n)                                                    -- L144
     else .ok (fillFromList n jumping clist)
+
+/-- `evaluate` for every `n_seats ≥ 0`.  The quota functions that divide by the seat count (`hare`, `hare_rounded`:
+    `Fraction(votes, seats)`) raise ZeroDivisionError when called with `n_seats = 0` (L121-124); `quotaDividesBySeats`
+    says whether the configured quota function is one of them.  Everything else is `thresholdOpenList`. -/
+def thresholdOpenListAt (quotaDividesBySeats : Bool) (cfg : OpenListCfg) (votes : Votes) (n : Nat)
+    (clist : List Cand) : Except Err (List Cand) :=
+  if n = 0 ∧ cfg.quota.isSome = true ∧ quotaDividesBySeats = true then .error (.other "ZeroDivisionError")
+  else thresholdOpenList cfg votes n clist
 
 /-! ### Tie.break_by_list (core.py L79-101) -/
 
